@@ -188,6 +188,9 @@ func fnSMove(ctx *cmdContext, args map[string]any) (output respValue, err error)
 	return
 }
 
+// largest number of random elements one SRANDMEMBER/HRANDFIELD call may ask for
+const maxRandomCount = 1 << 20
+
 func fnSRandMember(ctx *cmdContext, args map[string]any) (output respValue, err error) {
 	keyName := args["key"].(string)
 	count64, countSpecified := args["count"].(int64)
@@ -195,6 +198,10 @@ func fnSRandMember(ctx *cmdContext, args map[string]any) (output respValue, err 
 	var countPtr *int
 	count := int(count64)
 	if countSpecified {
+		if count64 < -maxRandomCount || count64 > maxRandomCount {
+			output.data = respErrorString("ERR value is out of range")
+			return
+		}
 		countPtr = &count
 	}
 
